@@ -118,6 +118,45 @@ func runC07(c *runCfg) error {
 		emitMulti(c, "concurrent", cases, g.schedule(cases), false)
 		id++
 	}
+	// connections that have come and gone (Terminate, or just a hang-up) before the next ones start:
+	// whatever the server keeps of a finished connection must not reach a later one
+	rounds = 60
+	if c.tier == "thorough" {
+		rounds = 1200
+	}
+	for r := 0; r < rounds; r++ {
+		var cases []*caseT
+		var sched []int
+		early := 1 + g.rng.Intn(2)
+		for k := 0; k < early+2; k++ {
+			var msgs [][]byte
+			for j := 2 + g.rng.Intn(4); j > 0; j-- {
+				msgs = append(msgs, alphabet[g.rng.Intn(len(alphabet))])
+			}
+			if k < early {
+				if (r+k)%3 != 0 {
+					msgs = append(msgs, mTerminate())
+				}
+			} else {
+				msgs = append(msgs, mSync(), mExecute(names[0], 0), mExecute(names[1], 0), mDescribe('S', names[1]), mSync())
+			}
+			cs := lockCase(0, "after_gone", cfg, startupMsg("user", fmt.Sprintf("u%d", k)), msgs)
+			cs.id = fmt.Sprintf("%d.%d", id, k)
+			cases = append(cases, cs)
+			if k < early {
+				for range cs.chunks {
+					sched = append(sched, k)
+				}
+			}
+		}
+		sched = append(sched, g.schedule(cases[early:])...)
+		// g.schedule numbers the later connections from 0: shift them
+		for i := len(sched) - 1; i >= 0 && i >= len(sched)-len(g.scheduleLen(cases[early:])); i-- {
+			sched[i] += early
+		}
+		emitMulti(c, "after_gone", cases, sched, false)
+		id++
+	}
 	n := 500
 	if c.tier == "thorough" {
 		n = 10000
@@ -243,6 +282,45 @@ func runC08(c *runCfg) error {
 		cfg := mkCfg(1, poids)
 		emitSession(c, lockCase(id, "manyparams", cfg, stdStartup, [][]byte{mParse(nil, []byte("q"), 0), mDescribe('S', nil), mSync()}))
 		id++
+	}
+	// Parse messages that prespecify parameter types (fewer, as many, more than declared; zero and
+	// non-zero OIDs): the statement's Describe still announces the declared types
+	for pi, poids := range [][]int{nil, {23}, {23, 25}, {0, 0, 0}, {16, 17, 20, 21}} {
+		for oi, oids := range [][]uint32{{25}, {25, 0}, {0, 17, 16}, {23, 23, 23, 23, 23, 23}, {4294967295}, {0}} {
+			if c.tier != "thorough" && (pi+oi)%2 != 0 {
+				continue
+			}
+			cfg := mkCfg(1, poids)
+			msgs := [][]byte{mParseOids([]byte("s"), []byte("q"), oids), mDescribe('S', []byte("s")), mBind(nil, []byte("s"), nil, values(len(poids), -1), nil),
+				mDescribe('P', nil), mExecute(nil, 0), mSync(), mParseOids(nil, []byte("q"), oids), mDescribe('S', nil), mSync()}
+			emitSession(c, lockCase(id, "parseoids", cfg, stdStartup, msgs))
+			id++
+		}
+	}
+	// two (three) portals alive at once: each must keep the values, NULLs and format tags of its own Bind
+	// whatever later Binds carry (fewer, as many, more parameters; other formats)
+	for _, n1 := range []int{1, 3, 17} {
+		for _, n2 := range []int{0, 1, 3, 17, 20} {
+			for k1 := 0; k1 < 4; k1++ {
+				if c.tier != "thorough" && (n1+n2+k1)%2 != 0 {
+					continue
+				}
+				cfg := mkCfg(2, nil)
+				ps2 := values(n2, n2/2)
+				for i := range ps2 {
+					if !ps2[i].null {
+						ps2[i].v = append([]byte("second-"), ps2[i].v...)
+					}
+				}
+				msgs := [][]byte{mParse([]byte("s"), []byte("q"), 0),
+					mBind([]byte("p1"), []byte("s"), fmts(n1, k1), values(n1, 0), []int{0}),
+					mBind([]byte("p2"), []byte("s"), fmts(n2, (k1+1)%4), ps2, []int{1}),
+					mBind(nil, []byte("s"), fmts(n1, (k1+2)%4), values(n1, n1-1), nil),
+					mExecute([]byte("p1"), 0), mDescribe('P', []byte("p1")), mExecute([]byte("p2"), 0), mExecute(nil, 0), mExecute([]byte("p1"), 0), mSync()}
+				emitSession(c, lockCase(id, "portals", cfg, stdStartup, msgs))
+				id++
+			}
+		}
 	}
 	// inadmissible codes: outside {0,1}
 	run("badcode", mkCfg(2, nil), []int{2}, values(2, -1), []int{7, 65535})
